@@ -3,6 +3,10 @@ module pikemc
 go 1.23
 
 require (
+	github.com/andybalholm/brotli v1.0.3
+	github.com/golang/snappy v0.0.3
+	github.com/klauspost/compress v1.13.1
+	github.com/pierrec/lz4 v2.6.1+incompatible
 	github.com/vicanso/elton v1.4.2
 	github.com/vicanso/hes v0.3.9
 	github.com/vicanso/pike v0.0.0
@@ -11,7 +15,6 @@ require (
 require (
 	github.com/DataDog/zstd v1.4.1 // indirect
 	github.com/StackExchange/wmi v0.0.0-20190523213315-cbe66965904d // indirect
-	github.com/andybalholm/brotli v1.0.3 // indirect
 	github.com/aws/aws-sdk-go v1.34.28 // indirect
 	github.com/cespare/xxhash v1.1.0 // indirect
 	github.com/cespare/xxhash/v2 v2.1.1 // indirect
@@ -34,13 +37,10 @@ require (
 	github.com/gogo/protobuf v1.3.2 // indirect
 	github.com/golang/groupcache v0.0.0-20210331224755-41bb18bfe9da // indirect
 	github.com/golang/protobuf v1.4.2 // indirect
-	github.com/golang/snappy v0.0.3 // indirect
 	github.com/google/flatbuffers v1.12.0 // indirect
 	github.com/google/uuid v1.2.0 // indirect
 	github.com/jmespath/go-jmespath v0.4.0 // indirect
-	github.com/klauspost/compress v1.13.1 // indirect
 	github.com/leodido/go-urn v1.2.0 // indirect
-	github.com/pierrec/lz4 v2.6.1+incompatible // indirect
 	github.com/pkg/errors v0.9.1 // indirect
 	github.com/shirou/gopsutil/v3 v3.21.5 // indirect
 	github.com/tidwall/gjson v1.8.1 // indirect
